@@ -14,9 +14,11 @@ ORACLE         get_next_imf, sift on x vs c*x: c = +-2^k (|k| <= 8) np.array_equ
 """
 import concurrent.futures
 import contextlib
+import copy
 import math
 import multiprocessing
 import os
+import random
 import tempfile
 import warnings
 
@@ -32,6 +34,8 @@ GUARD = 1e-6          # relative distance of a stop metric to its threshold
 TIE_REL = 1e-9        # two neighbouring samples closer than this (relative) are a near-tie at an extremum
 TIE_ABS = 1e-12       # ... or closer than this relative to the input signal's scale (tiny late iterates)
 TOL = 1e-9
+MAG_PADS = [{'mode': 'reflect'}, {'mode': 'symmetric'}, {'mode': 'mean', 'stat_length': 2}, {'mode': 'median', 'stat_length': 3},
+            {'mode': 'edge'}]
 SITE_NEG_ODD = 'mask_sift(c<0, odd nphases)'
 TAG_NEG_ODD = {'family': 'mask-neg-odd'}
 
@@ -291,14 +295,16 @@ def _transform(T, a):
     return a[::-1].copy()
 
 
-def _run_side(case, x, cabs, timeout):
+def _run_side(case, x, cabs, timeout, xo=None):
     """one call into the implementation.  returns (status, imf (N,k) | None, flag | None, trace)"""
     from emd import sift
     kind = case['kind']
     io = dict(case['imf_opts'])
     if 'rilling_thresh' in io:
         io['rilling_thresh'] = tuple(io['rilling_thresh'])
-    eo, xo = dict(case['envelope_opts']), dict(case['extrema_opts'])
+    eo = dict(case['envelope_opts'])
+    if xo is None:
+        xo = copy.deepcopy(case['extrema_opts'])
     scale0 = max(1e-300, float(np.abs(x).max()))
     X = np.asarray(x, dtype=float)
     flag = None
@@ -342,9 +348,14 @@ def run_case(case, timeout=60):
     x = np.array(case['signal'], dtype=float)
     T = case['transform']
     cabs = abs(T['scale']) if 'scale' in T else 1.0
-    sa, A, fa, ta = _run_side(case, x, 1.0, timeout)
-    sb, B, fb, tb = _run_side(case, _transform(T, x), cabs, timeout)
+    # custom np.pad settings are nested dicts: either a fresh copy per call, or ONE object handed to both calls (a caller reusing
+    # its options); the case record itself is never handed to the implementation
+    shared = copy.deepcopy(case['extrema_opts']) if case.get('reuse_opts') else None
+    sa, A, fa, ta = _run_side(case, x, 1.0, timeout, xo=shared)
+    sb, B, fb, tb = _run_side(case, _transform(T, x), cabs, timeout, xo=shared)
     path = '%s-%s-%s' % (case['kind'], case['compare'], 'rev' if 'rev' in T else ('pos' if T['scale'] > 0 else 'neg'))
+    if 'mag_pad_opts' in case['extrema_opts']:
+        path += '-pad:%s%s' % (case['extrema_opts']['mag_pad_opts']['mode'], '(reused)' if case.get('reuse_opts') else '')
     res = dict(status='ok', what=None, path=path, nontrivial=bool(ta.iterated), exact=False, near=ta.near + tb.near)
     if 'timeout' in (sa, sb):
         res['status'] = 'timeout'
@@ -405,12 +416,22 @@ def gen_cases(ctx, n_dy, n_real, n_rev, n_mask):
     sigs = siftcore.real_signals(ctx.seed * 7 + 2, n_dy + n_real + n_rev + n_mask)
     it = iter(sigs)
 
+    prng = random.Random(ctx.seed * 7919 + 17)       # separate stream: the pad settings do not shift the other draws
+
     def base(kind, fam, x):
         io, eo, xo = siftcore.real_opts(rng)
         if rng.random() < 0.15:
             io['energy_thresh'] = rng.choice([20, 50])
+        reuse = False
+        if prng.random() < 0.4:
+            # "every padding setting": user-supplied np.pad options for the extrema magnitudes (all linear in the magnitudes and
+            # symmetric end to end); locations stay on the default odd reflection (reflect_type='even' never terminates)
+            xo['mag_pad_opts'] = copy.deepcopy(prng.choice(MAG_PADS))
+            if prng.random() < 0.3:
+                xo['loc_pad_opts'] = {'mode': 'reflect', 'reflect_type': 'odd'}
+            reuse = prng.random() < 0.5
         return dict(kind=kind, family=fam, signal=[float(v) for v in x], imf_opts=io, envelope_opts=eo, extrema_opts=xo,
-                    sift_thresh=1e-8, max_imfs=rng.choice([None, None, 3, 5]))
+                    reuse_opts=reuse, sift_thresh=1e-8, max_imfs=rng.choice([None, None, 3, 5]))
     for i in range(n_dy):
         fam, x = next(it)
         c = -1.0 if i % 5 == 0 else _dyadic_c(rng)
@@ -476,8 +497,9 @@ def run(ctx):
                 'c*x and on reversed x vs the model prediction from x - exact; (2) real sd_stop / rilling_stop on integer vectors scaled, swapped, '
                 'reversed vs the exact model on the originals; (3) interpolant contract (homogeneity, reflection) on random knot sets for splrep, '
                 'pchip, mono_pchip and envelope equivariance of the real interp_envelope - tolerance 1e-9; (4) oracle on real signals (8 families, '
-                'order-one amplitude, length 24..200) x {sd,rilling,fixed} x step {1,1/2,1/4} x {splrep,pchip,mono_pchip} x pad 1..4 (x energy '
-                'option): get_next_imf and sift under c = +-2^k, |k| <= 8 (np.array_equal, sift_thresh*|c|), under arbitrary non-zero reals and '
+                'order-one amplitude, length 24..200) x {sd,rilling,fixed} x step {1,1/2,1/4} x {splrep,pchip,mono_pchip} x pad 1..4 x '
+                'magnitude padding {default median-1, reflect, symmetric, mean-2, median-3, edge; fresh options per call or one dict reused '
+                'across the two calls} (x energy option): get_next_imf and sift under c = +-2^k, |k| <= 8 (np.array_equal, sift_thresh*|c|), under arbitrary non-zero reals and '
                 'under time reversal (1e-9*scale); mask_sift ratio_sig/ratio_imf x nphases {1,2,3,4,8} under c > 0 and, for even nphases, c < 0. '
                 'guard band: a case is discarded when a recorded stop metric / per-sample Rilling metric / energy ratio / component abs-sum '
                 'lies within 1e-6 relative of its threshold, two neighbouring samples of an iterate differ by less than 1e-9 relative, or (mask_freqs=zc) '
